@@ -316,7 +316,7 @@ def _interleaved_jobs():
     sign, serialise, reload, verify"""
     from ecdsa import SigningKey, VerifyingKey
     from ecdsa import util as U
-    d1, d2 = gen.dom("t4093"), gen.dom("t1021a")
+    d1, d2 = gen.dom("t65521b"), gen.dom("t1021a")      # 2-octet fields; orders of 3 resp. 2 octets
 
     def job(d, dd, msg, hf, enc, dec, fmt):
         def run():
@@ -353,9 +353,42 @@ def _interleaved(ctx, stride, max_schedules):
     interleaved_pure(ctx, "sign-verify", [K, E, EL, UM, RF, DM, NM], jobs, stride, second_counts=(None, 40), max_schedules=max_schedules)
 
 
+def neg_pairs(ctx):
+    """keys d and n-d (public points P and -P: same x, other parity) used one after the other in one process,
+    each verifying key reloaded from its compressed encodings"""
+    from ecdsa import SigningKey, VerifyingKey
+    from ecdsa import util as U
+    for cname in ("NIST192p", "NIST256p", "SECP160r1", "BRAINPOOLP160r1", "t1021a", "t65521b"):
+        d = gen.dom(cname)
+        for base in (1, 2, d.n // 3):
+            for dd in (base, d.n - base, base):
+                ctx.ev()
+                case = {"kind": "neg-pairs", "curve": cname, "d": dd}
+                try:
+                    sk = SigningKey.from_secret_exponent(dd, curve=d.lib, hashfunc=hashlib.sha256)
+                    vk0 = sk.get_verifying_key()
+                    sig = sk.sign_deterministic(b"pair", sigencode=U.sigencode_der)
+                    routes = [("compressed-string", VerifyingKey.from_string(vk0.to_string("compressed"), curve=d.lib, hashfunc=hashlib.sha256))]
+                    if not d.toy:
+                        routes.append(("compressed-der", VerifyingKey.from_der(vk0.to_der("compressed"), hashfunc=hashlib.sha256)))
+                        routes.append(("compressed-pem", VerifyingKey.from_pem(vk0.to_pem("compressed"), hashfunc=hashlib.sha256)))
+                    for rn, vk in routes:
+                        Q = rec.mul(d.c, dd, d.G)
+                        if (int(vk.pubkey.point.x()), int(vk.pubkey.point.y())) != Q:
+                            ctx.fail("neg-pairs/reloaded-key-is-another-point/%s" % rn, case, "")
+                        if vk.verify(sig, b"pair", sigdecode=U.sigdecode_der) is not True:
+                            ctx.fail("neg-pairs/not-verified/%s" % rn, case, "")
+                except BadSignatureError as e:
+                    ctx.fail("neg-pairs/BadSignatureError", case, repr(e))
+                except Exception as e:
+                    ctx.fail("neg-pairs/exception/%s" % exc_sig(e), case, repr(e))
+                ctx.nontrivial(("neg-pairs", cname, dd))
+    ctx.sample({"kind": "neg-pairs", "note": "d, n-d, d again on each curve; verifying keys reloaded from compressed forms"})
+
+
 def units(tier, seed):
     q = tier == "quick"
-    out = [("interleaved", {"stride": 1, "max": 2500 if q else 40000})]
+    out = [("interleaved", {"stride": 1, "max": 2500 if q else 40000}), ("neg-pairs", {})]
     names = sorted(gen.NAMED, key=lambda x: -gen.dom(x).p)
     for nm in names:
         out.append(("sweep", {"names": [nm], "full": not q}))
@@ -384,6 +417,9 @@ def units(tier, seed):
 def run_unit(ctx, name, **kw):
     if name == "interleaved":
         _interleaved(ctx, kw["stride"], kw["max"])
+        return
+    if name == "neg-pairs":
+        neg_pairs(ctx)
         return
     if name == "sweep":
         cache = {}
@@ -416,5 +452,8 @@ def run_unit(ctx, name, **kw):
 def replay(ctx, case):
     if case.get("kind") == "interleaved":
         _interleaved(ctx, 1, 2500)
+        return
+    if case.get("kind") == "neg-pairs":
+        neg_pairs(ctx)
         return
     check_case(ctx, case)
